@@ -98,19 +98,22 @@ def run_cell(cfg, cx):
     out_sig = [(kp, dc) for kp, dc, cc in sg if dc > 0]
     const = {kp: cc for kp, dc, cc in sg if cc > 0}
     x = {kp: S.var_array(f"x{kp[0]}{kp[1]}", (dc * past + cc,) + shape + (D,) * kp[0]) for kp, dc, cc in sg}
-    model = stubs.make_uf_model("m", out_sig)
+    model = stubs.make_uf_model("m", out_sig)   # (its function symbol depends on the image's D and boundary flags)
     ckey = f"sig={cfg['sig']}:n={n}:past={past}"
     meta = {}
+    flags = (True, False)   # not a torus on every axis: the fed-back input has to carry the flags along
 
     def rollout(xb):
-        out, aux = ml.autoregressive_map(model, geom.MultiImage({kp: xb[kp] for kp, _, _ in sg}, D, True), None, past, n, const)
+        out, aux = ml.autoregressive_map(model, geom.MultiImage({kp: xb[kp] for kp, _, _ in sg}, D, flags), None, past, n, const)
         meta["keys"] = list(out.keys())
+        meta["out_meta"] = (out.D, tuple(out.is_torus))
         return dict(out.data)
 
     def step(xb, yb):
-        r = ml.autoregressive_step(geom.MultiImage({kp: xb[kp] for kp, _, _ in sg}, D, True),
-                                    geom.MultiImage({kp: yb[kp] for kp, _ in reversed(out_sig)}, D, True), past, const)
+        r = ml.autoregressive_step(geom.MultiImage({kp: xb[kp] for kp, _, _ in sg}, D, flags),
+                                    geom.MultiImage({kp: yb[kp] for kp, _ in reversed(out_sig)}, D, flags), past, const)
         meta["step_keys"] = list(r.keys())
+        meta["step_meta"] = (r.D, tuple(r.is_torus))
         return dict(r.data)
 
     # ---- reference loop
@@ -130,7 +133,7 @@ def run_cell(cfg, cx):
     cur = {kp: v.a for kp, v in x.items()}
     preds = []
     for t in range(n):
-        pr = stubs.uf_model_apply("m", cur, out_sig, shape, D)
+        pr = stubs.uf_model_apply("m", cur, out_sig, shape, D, flags)
         preds.append(pr)
         cur = ref_step(cur, pr)
     expect = {}
@@ -150,7 +153,7 @@ def run_cell(cfg, cx):
         for t in range(n):
             vec = np.concatenate([np.asarray(curf[q], dtype=np.float32).reshape(-1) for q in sorted(curf)])
             sizes = [dc * int(np.prod(shape)) * D ** q[0] for q, dc in out_sig]
-            y = stubs.generic_model("m", vec, int(sum(sizes))).astype(np.float32)
+            y = stubs.generic_model(stubs._meta_name("m", D, flags), vec, int(sum(sizes))).astype(np.float32)
             pr, i = {}, 0
             for (q, dc), sz in zip(out_sig, sizes):
                 pr[q] = y[i:i + sz].reshape((dc,) + shape + (D,) * q[0])
@@ -168,6 +171,8 @@ def run_cell(cfg, cx):
     st_exp = ref_step({kp: v.a for kp, v in x.items()}, {kp: v.a for kp, v in y.items()})
     cx.structural("step: type order preserved", meta["step_keys"] == [kp for kp, _, _ in sg],
                   f"new input has key order {meta['step_keys']}, input had {[kp for kp, _, _ in sg]}", key=f"step-order:{ckey}")
+    cx.structural("step / rollout: D and boundary flags carried over", meta["step_meta"] == (D, flags) and meta["out_meta"] == (D, flags),
+                  f"(D, is_torus): new input {meta['step_meta']}, rollout {meta['out_meta']}, initial input {(D, flags)}", key=f"step-meta:{ckey}")
     for kp in st_exp:
         if kp in st_got:
             cx.equal(f"step[{kp}]", st_got[kp], st_exp[kp], key=f"step:{kp}:{ckey}",
